@@ -610,6 +610,21 @@ func init() {
 		}
 		return e.constBytes([]byte(ip))
 	}
+	// net.ParseCIDR(<constant>) -> (IP, *IPNet{IP, Mask}, error), natively
+	intrinsics["net.ParseCIDR"] = func(e *Engine, fr *frame, fn *ssa.Function, args []Value, g *Term, pos token.Pos) Value {
+		s, ok := args[0].(*StrV).concrete()
+		if !ok {
+			panic(unsupported("net.ParseCIDR on a symbolic string"))
+		}
+		res := fn.Signature.Results()
+		ip, ipn, err := net.ParseCIDR(s)
+		if err != nil {
+			return &StructV{F: []Value{zeroValue(res.At(0).Type()), nilPtr, e.opaqueError("net.ParseCIDR: invalid CIDR address", nil)}}
+		}
+		netT := res.At(1).Type().(*types.Pointer).Elem()
+		o := newObject("ipnet", netT, &StructV{F: []Value{e.constBytes([]byte(ipn.IP)), e.constBytes([]byte(ipn.Mask))}})
+		return &StructV{F: []Value{e.constBytes([]byte(ip)), ptrTo(o), zeroValue(res.At(2).Type())}}
+	}
 }
 
 func (e *Engine) constBytes(b []byte) *SliceV {
